@@ -1,0 +1,13 @@
+//go:build verif
+
+// Machine-checked contracts for govc (see /verif/DESIGN.md). Comments only;
+// compiled only with the build tag "verif".
+
+package subject
+
+// C11: the subject digest covers id and attributes (the whole marshalled subject)
+//@ func (*Subject).Hash
+//@   props C11
+//@   logged shash
+//@   nomaprange Write
+//@   ensures hw.n == old(hw.n) + 1
